@@ -152,7 +152,7 @@ Section plain_leave.
     stack s = nf w a t0 r d :: anc -> fc s = fcd dd -> enabled s = true -> ridx s = r + 1 ->
     t0 <= t1 -> t1 < 18446744073709551616 -> 0 < t1 ->
     do_leave c s t1 =
-    if (thr <? t1 - t0) || w then
+    if (thr <=? t1 - t0) || w then
       {| fc := fcd d; enabled := true; cached := cached s;
          stack := if w then anc else fst (flush_anc anc); ridx := r;
          out := out s ++ (if w then [] else snd (flush_anc anc) ++ [entry_rec (newframe sh a t0 r d)])
@@ -199,7 +199,7 @@ Section plain_leave.
     replace (r + 1 - 1) with r by lia.
     subst c. cbn [plain has_caller threshold negb andb orb].
     rewrite andb_true_r, orb_false_r.
-    destruct ((thr <? t1 - t0) || w) eqn:Dec; [|reflexivity].
+    destruct ((thr <=? t1 - t0) || w) eqn:Dec; [|reflexivity].
     unfold record_trace_data. rewrite Hfl, Hw.
     assert (Hend : (f_end (set_end (nf w a t0 r d) t1) =? 0) = false) by (cbn [set_end f_end]; apply N.eqb_neq; lia).
     destruct w.
